@@ -46,7 +46,24 @@ def _case(draw, kind):
             shapes = [[1], [2]]
     else:
         shapes = None
-    rhs = draw(PR.prog_params(shapes=shapes))
+        if draw(st.integers(0, 5)) == 0:
+            # a state whose last axis happens to be as long as the method has stages: (stages,) and (k, stages) arrays are
+            # conformable with the stage buffer and the weight vectors in more ways than the intended one
+            ns = int(M.tableau(method)[1].shape[0])
+            if ns >= 2:
+                shapes = [[ns], [2, ns], [ns, 2]]
+    if shapes is not None and kind == "explicit" and max(int(np.prod(s_)) for s_ in shapes) > 6:
+        # (many components: banded coefficient matrices built from a few drawn numbers)
+        shape_ = draw(st.sampled_from(shapes))
+        n_ = int(np.prod(shape_))
+        v_ = draw(st.lists(st.integers(-8, 8).map(lambda k: k / 8.0), min_size=9, max_size=9))
+
+        def banded(off):
+            return [[(v_[(3 * i + j + off) % 9] if abs(i - j) <= 1 else 0.0) for j in range(n_)] for i in range(n_)]
+        rhs = dict(kind="prog", shape=shape_, P=banded(0), Q=banded(2), R=banded(5), u=[v_[(i + 4) % 9] for i in range(n_)],
+                   a=draw(st.sampled_from([0.0, 0.5, -0.25])), w=draw(st.sampled_from([0.0, 1.0, 2.5])), c=draw(st.sampled_from([0.0, 1.0])), w2=draw(st.sampled_from([0.0, 1.7])))
+    else:
+        rhs = draw(PR.prog_params(shapes=shapes))
     linear = kind == "implicit" and draw(st.sampled_from([False, False, True]))
     if linear:
         # f = P y + c cos(w2 t) u: the stage equations are one linear system, which a Newton-type solver with the true
